@@ -210,7 +210,11 @@ def gen_schema(rng, want=None, types_upper=None, profile=None):
         elif shape == 'reflexive_twice':
             # two reflexive 1:1 associations on one class (e.g. document order and priority order)
             n = mk_class(extra=[['Prev_Id', idt], ['Alt_Id', idt]], id_type=idt, prefix='N')
-            assoc(n, ['Alt_Id'], n, ['Id'], False, True, True, 'outranks', 'is outranked by')
+            if rng.random() < 0.4:
+                # both orders use the same pair of phrases: only the number tells them apart
+                assoc(n, ['Alt_Id'], n, ['Id'], False, True, True, 'succeeds', 'precedes')
+            else:
+                assoc(n, ['Alt_Id'], n, ['Id'], False, True, True, 'outranks', 'is outranked by')
             assoc(n, ['Prev_Id'], n, ['Id'], False, True, True, 'succeeds', 'precedes')
         elif shape == 'alt_key':
             # one class referred to through two different identifiers by equally named referential attributes
